@@ -50,17 +50,20 @@ Definition ir_ok (rep : bool) (c : ircase) : bool :=
    An arithmetic run (e, ds, da, k) stands for the k entries e_i = e with Scaled[0] + i*ds and Address + i*da,
    i = 0 .. k-1 (tools/props/c01unit.py compresses Go's output greedily; runs of length 1 are ordinary entries). *)
 Definition arun := (gentry * N * N * N)%type.
+(* [i; i+1; ...] of the given length (rangeN converts every index from nat: quadratic for 65536 elements) *)
+Fixpoint countN (len : nat) (i : N) : list N := match len with O => [] | S l => i :: countN l (i + 1) end.
+Definition upto (k : N) : list N := countN (N.to_nat k) 0.
 Definition bump_head (l : list N) (d : N) : list N := match l with [] => [] | x :: r => (x + d) :: r end.
 Definition expand_run (r : arun) : list gentry :=
   let '((sc, nb, fm, ad), ds, da, k) := r in
-  map (fun i => (bump_head sc (i * ds), nb, fm, ad + i * da)) (rangeN k).
+  map (fun i => (bump_head sc (i * ds), nb, fm, ad + i * da)) (upto k).
 Definition expand_runs (l : list arun) : list gentry := flat_map expand_run l.
 
 (* written entries as runs: (coord, addr, nbytes) with coord[0] + i*dc, addr + i*da *)
 Definition wrun := (wentry * N * N * N)%type.
 Definition expand_wrun (r : wrun) : list wentry :=
   let '((co, ad, nb), dc, da, k) := r in
-  map (fun i => (bump_head co (i * dc), ad + i * da, nb)) (rangeN k).
+  map (fun i => (bump_head co (i * dc), ad + i * da, nb)) (upto k).
 Definition expand_wruns (l : list wrun) : list wentry := flat_map expand_wrun l.
 
 Definition irlcase := (packed * N * N * N * nat * list N * N * list arun)%type.
